@@ -49,3 +49,20 @@ def dense_to_mps(vec, n: int, d: int = 2):
         rest = s[:, None] * vh
     out.append(torch.tensor(rest.reshape(rest.shape[0], d, 1)))
     return out
+
+
+def mpo_times_dense(factors, vec, d: int):
+    """apply an MPO (list of (l, out, in, r) factors) to a dense vector without forming the matrix"""
+    n = len(factors)
+    t = np.asarray(vec, dtype=complex).reshape((1,) + (d,) * n)  # (bond, s0, s1, ..., s_{n-1})
+    for i, f in enumerate(factors):
+        f = _np(f)  # (l, o, in, r)
+        t = np.tensordot(f, t, axes=([0, 2], [0, i + 1]))  # (o, r, rest...)
+        t = np.moveaxis(t, [1, 0], [0, i + 1])
+    return t.reshape(-1)
+
+
+def site_op_times_dense(A, site: int, n: int, d: int, vec):
+    t = np.asarray(vec, dtype=complex).reshape((d,) * n)
+    t = np.tensordot(np.asarray(A, dtype=complex), t, axes=([1], [site]))
+    return np.moveaxis(t, 0, site).reshape(-1)
